@@ -1,7 +1,1051 @@
-//! C16 engine (not yet built).
-use crate::common::{CaseWriter, Opts};
+//! C16 — results are deterministic and independent of history.
+//!
+//! engine `c16`    (in-process, the real evaluator):
+//!   * `det.fields`  : generated object expressions (literals with `:`/`::`/`:::` members, `+`,
+//!                     `std.objectRemoveKey`) are evaluated with the field names pre-interned in a
+//!                     shuffled order (so the address-keyed hash maps iterate differently); the layer
+//!                     vector is read through `verif_core_shape`, `fields_ex(false/true)` is compared
+//!                     with the Lean model of `fields_visibility`+`fields_ex` run under explicit
+//!                     iteration permutations and with the per-name reference.
+//!   * `det.suggest` : undefined-local / missing-field programs; the suggestion list carried by the
+//!                     real `ErrorKind` is compared with the Lean ranking model (scores are the real
+//!                     `strsim::jaro_winkler` values, passed as IEEE bit patterns).
+//!   * `det.tla`     : `apply_tla` with an `FxHashMap` of arguments (unknown names, unresolvable
+//!                     imports, unbound parameters): which error is reported vs the Lean model.
+//!   * `det.hist`    : every generated program (values, errors, field listings, did-you-mean,
+//!                     multi-error, stack-limited, imports) is evaluated in a fresh thread with a
+//!                     fresh state, and again after randomised histories (successful, failing,
+//!                     stack-limited programs, garbage collections) on fresh threads and on ONE
+//!                     long-lived worker state, with differently sized/ordered pre-interned pools;
+//!                     all renderings (manifested JSON or error text with trace) are handed to the
+//!                     driver, which answers whether they are byte-identical.
+//! engine `c16cli` : the `jrsonnet` binary, each program 8x in fresh processes (ASLR on);
+//!                   stdout/stderr/exit status must be byte-identical (`det.repeat`).
+use std::{
+	collections::BTreeMap,
+	path::{Path, PathBuf},
+	process::Command,
+	thread,
+};
+
+use jrsonnet_evaluator::{
+	apply_tla,
+	error::ErrorKind,
+	manifest::JsonFormat,
+	rustc_hash::FxHashMap,
+	tla::TlaArg,
+	trace::{CompactFormat, PathResolver, TraceFormat},
+	FileImportResolver, IStr, State, Val,
+};
+use serde_json::{json, Value};
+
+use crate::common::{guarded, CaseWriter, Opts, Rng};
+
+const BIG_STACK: usize = 1 << 30;
+
+// ---------------------------------------------------------------------------------------------
+// fixtures
+
+const LIBS: &[(&str, &str)] = &[
+	("lib_ok.libsonnet", "{ f: 1, g: [self.f, 2], name_a: 'A', name_b:: 'B', abc1: 1, abc2: 2 }"),
+	("lib_err.libsonnet", "error 'lib_err: top-level failure'"),
+	("lib_lazy.libsonnet", "{ good: 1, bad: error 'lib_lazy: bad field', worse: self.nope, nope2: 2 }"),
+	("lib_assert.libsonnet", "{ assert self.a > 1 : 'lib_assert: a too small', a: 1, b: 2 }"),
+	("lib_syntax.libsonnet", "{ a: 1,, }"),
+	("lib_cyc_a.libsonnet", "{ a: 1, b: (import 'lib_cyc_b.libsonnet').c }"),
+	("lib_cyc_b.libsonnet", "{ c: (import 'lib_cyc_a.libsonnet').a + 1 }"),
+	("lib_self.libsonnet", "(import 'lib_self.libsonnet')"),
+	(
+		"lib_deep.libsonnet",
+		"local f(n) = if n == 0 then 0 else 1 + f(n - 1); { x: f(40), y: f(10), local v = f(60), z: v }",
+	),
+];
+
+fn write_libs(dir: &Path) {
+	std::fs::create_dir_all(dir).expect("mkdir lib");
+	for (n, t) in LIBS {
+		std::fs::write(dir.join(n), t).expect("write lib");
+	}
+}
+
+fn mk_state(lib: &Path) -> State {
+	let mut s = State::builder();
+	s.context_initializer(jrsonnet_stdlib::ContextInitializer::new(PathResolver::FileName))
+		.import_resolver(FileImportResolver::new(vec![lib.to_path_buf()]));
+	s.build()
+}
+
+fn fmt() -> CompactFormat {
+	CompactFormat {
+		resolver: PathResolver::FileName,
+		max_trace: 20,
+		padding: 1,
+	}
+}
+
+/// the complete observable of one evaluation: manifested JSON, or the error text with its trace
+fn render(s: &State, code: &str) -> String {
+	match guarded(|| -> Result<String, jrsonnet_evaluator::Error> {
+		// as cmds/jrsonnet does: imports are served by the entered state (StateEnterGuard)
+		let _g = s.try_enter();
+		let v = s.evaluate_snippet("<p>".to_owned(), code.to_owned())?;
+		v.manifest(JsonFormat::cli(
+			2,
+			#[cfg(feature = "exp-preserve-order")]
+			false,
+		))
+	}) {
+		Ok(Ok(t)) => format!("OK\n{t}"),
+		Ok(Err(e)) => format!("ERR\n{}", fmt().format(&e).unwrap_or_else(|_| "<fmt>".into())),
+		Err(p) => format!("PANIC\n{p}"),
+	}
+}
+
+fn big<T: Send + 'static>(f: impl FnOnce() -> T + Send + 'static) -> T {
+	thread::Builder::new()
+		.stack_size(BIG_STACK)
+		.spawn(f)
+		.expect("spawn")
+		.join()
+		.expect("join")
+}
+
+// ---------------------------------------------------------------------------------------------
+// program generator
+
+const FAMS: &[&[&str]] = &[
+	&["abc1", "abc2", "abc3", "abc4", "abc5", "abc"],
+	&["name_a", "name_b", "name_c", "name_d", "name"],
+	&["fooBar", "fooBaz", "fooBat", "fooBa", "foo"],
+	&["alpha", "alpah", "alhpa", "aplha", "alph"],
+	&["x1", "x2", "y1", "y2", "x"],
+	&["value", "values", "valued", "valve", "valu"],
+];
+const UFAMS: &[&[&str]] = &[&["é1", "é2", "é3", "é4", "é"], &["ключ1", "ключ2", "ключ3", "ключ"]];
+
+fn shuffle<T>(rng: &mut Rng, v: &mut [T]) {
+	for i in (1..v.len()).rev() {
+		let j = rng.below(i + 1);
+		v.swap(i, j);
+	}
+}
+
+fn qf(n: &str) -> String {
+	if n.is_ascii() {
+		n.to_string()
+	} else {
+		format!("'{n}'")
+	}
+}
+
+#[derive(Clone, Debug)]
+struct Lit {
+	fields: Vec<(String, u8, String)>, // name, vis 0 `:` 1 `::` 2 `:::`, body
+}
+#[derive(Clone, Debug)]
+enum Obj {
+	Lit(Lit),
+	Add(Box<Obj>, Box<Obj>),
+	Rm(Box<Obj>, String),
+}
+
+fn obj_src(o: &Obj) -> String {
+	match o {
+		Obj::Lit(l) => {
+			let mut s = String::from("{");
+			for (i, (n, v, b)) in l.fields.iter().enumerate() {
+				if i > 0 {
+					s.push_str(", ");
+				}
+				s.push_str(&qf(n));
+				s.push_str(match v {
+					0 => ": ",
+					1 => ":: ",
+					_ => "::: ",
+				});
+				s.push_str(b);
+			}
+			s.push('}');
+			s
+		}
+		Obj::Add(a, b) => format!("({} + {})", obj_src(a), obj_src(b)),
+		Obj::Rm(a, n) => format!("std.objectRemoveKey({}, '{}')", obj_src(a), n),
+	}
+}
+fn obj_names(o: &Obj, out: &mut Vec<String>) {
+	match o {
+		Obj::Lit(l) => {
+			for f in &l.fields {
+				if !out.contains(&f.0) {
+					out.push(f.0.clone());
+				}
+			}
+		}
+		Obj::Add(a, b) => {
+			obj_names(a, out);
+			obj_names(b, out);
+		}
+		Obj::Rm(a, n) => {
+			obj_names(a, out);
+			if !out.contains(n) {
+				out.push(n.clone());
+			}
+		}
+	}
+}
+
+/// `errs`: 0 = all bodies are values, otherwise roughly that share (in 8ths) of bodies fail
+fn gen_lit(rng: &mut Rng, fam: &[&str], errs: usize, all_visible: bool) -> Lit {
+	let mut names: Vec<&str> = fam.to_vec();
+	shuffle(rng, &mut names);
+	let k = 1 + rng.below(names.len());
+	let mut fields = Vec::new();
+	for n in &names[..k] {
+		let vis = if all_visible {
+			0
+		} else {
+			match rng.below(6) {
+				0 => 1,
+				1 => 2,
+				_ => 0,
+			}
+		};
+		let body = if rng.below(8) < errs {
+			match rng.below(4) {
+				0 => format!("error 'E_{n}'"),
+				1 => "1 / 0".to_string(),
+				2 => format!("self.missing_{n}"),
+				_ => format!("[1][{}]", 1 + rng.below(3)),
+			}
+		} else {
+			format!("'v_{n}'")
+		};
+		fields.push(((*n).to_string(), vis, body));
+	}
+	Lit { fields }
+}
+fn gen_obj(rng: &mut Rng, depth: usize, errs: usize, all_visible: bool) -> Obj {
+	let fam: &[&str] = if rng.chance(1, 6) {
+		UFAMS[rng.below(UFAMS.len())]
+	} else {
+		FAMS[rng.below(FAMS.len())]
+	};
+	gen_obj_fam(rng, fam, depth, errs, all_visible)
+}
+fn gen_obj_fam(rng: &mut Rng, fam: &[&str], depth: usize, errs: usize, all_visible: bool) -> Obj {
+	if depth == 0 || rng.chance(2, 5) {
+		return Obj::Lit(gen_lit(rng, fam, errs, all_visible));
+	}
+	if rng.chance(3, 4) {
+		Obj::Add(
+			Box::new(gen_obj_fam(rng, fam, depth - 1, errs, all_visible)),
+			Box::new(gen_obj_fam(rng, fam, depth - 1, errs, all_visible)),
+		)
+	} else {
+		let n = fam[rng.below(fam.len())].to_string();
+		Obj::Rm(Box::new(gen_obj_fam(rng, fam, depth - 1, errs, all_visible)), n)
+	}
+}
+
+#[derive(Clone, Debug)]
+struct Prog {
+	class: &'static str,
+	text: String,
+}
+
+fn listing_wrap(rng: &mut Rng, o: &str) -> String {
+	match rng.below(16) {
+		0 => format!("std.objectFields({o})"),
+		1 => format!("std.objectFieldsAll({o})"),
+		2 => o.to_string(),
+		3 => format!("std.objectValues({o})"),
+		4 => format!("std.objectKeysValuesAll({o})"),
+		5 => format!("std.mapWithKey(function(k, v) k + '=' + v, {o})"),
+		6 => format!("std.toString({o})"),
+		7 => format!("std.manifestJsonMinified({o})"),
+		8 => format!("std.manifestYamlDoc({o})"),
+		9 => format!("std.manifestPython({o})"),
+		10 => format!("std.length({o})"),
+		11 => format!("std.prune({o} + {{ zz: null, yy: {{}} }})"),
+		12 => format!("local o = {o}; [k + ':' + o[k] for k in std.objectFields(o)]"),
+		13 => format!("local o = {o}; {{ [k + '_']: o[k] for k in std.objectFieldsAll(o) }}"),
+		14 => format!("std.mergePatch({o}, {{ abc2: null, name_b: {{ q: 1 }}, x1: 'p' }})"),
+		_ => format!("std.manifestTomlEx({{ t: {o} }}, ' ')"),
+	}
+}
+
+fn gen_value(rng: &mut Rng) -> Prog {
+	if rng.chance(3, 4) {
+		let o = obj_src(&gen_obj(rng, 3, 0, false));
+		Prog { class: "listing", text: listing_wrap(rng, &o) }
+	} else {
+		let a = rng.range(-50, 50);
+		let b = rng.range(1, 9);
+		let text = match rng.below(8) {
+			0 => format!("std.sort([{a}, {b}, 3, -1, {a}])"),
+			1 => format!("std.set(['b', 'a', 'c', 'a', 'n{b}'])"),
+			2 => format!("std.join(',', [std.toString(i * {b}) for i in std.range(0, {b})])"),
+			3 => format!("local f(x) = x * {a}; std.map(f, std.range(1, {b}))"),
+			4 => format!("'%05d|%s|%x' % [{a}, 'n{b}', {b}]"),
+			5 => format!("std.foldl(function(acc, x) acc + x, std.range(1, {b}), {a})"),
+			6 => format!("{{ a: {a}, b: self.a + {b}, c: [self.b, $.a] }}"),
+			_ => format!("std.setUnion(['n{b}', 'z'], ['a', 'z'])"),
+		};
+		Prog { class: "value", text }
+	}
+}
+
+fn near_miss(rng: &mut Rng, fam: &[&str]) -> String {
+	// a name that is not in the family but close to several members
+	let base = fam[fam.len() - 1];
+	match rng.below(4) {
+		0 => format!("{base}_"),
+		1 => format!("{base}0"),
+		2 => base[..base.char_indices().last().map_or(0, |c| c.0)].to_string() + "q",
+		_ => format!("{base}9"),
+	}
+}
+
+fn gen_locals_prog(rng: &mut Rng) -> (String, Vec<Vec<String>>, String) {
+	// nested scopes; returns (text, layers innermost first, missing name)
+	let fam = FAMS[rng.below(FAMS.len())];
+	let mut pool: Vec<&str> = fam.to_vec();
+	shuffle(rng, &mut pool);
+	let target = near_miss(rng, fam);
+	let nl = 1 + rng.below(3);
+	let mut layers: Vec<Vec<String>> = Vec::new();
+	let mut text = String::new();
+	let mut closers = String::new();
+	let mut it = pool.into_iter();
+	for li in 0..nl {
+		let k = 1 + rng.below(3);
+		let names: Vec<String> = it.by_ref().take(k).map(str::to_string).collect();
+		if names.is_empty() {
+			break;
+		}
+		if li % 2 == 1 && rng.chance(1, 2) {
+			// a function layer
+			text.push_str(&format!("(function({}) ", names.join(", ")));
+			closers = format!(")({}){closers}", names.iter().map(|_| "0").collect::<Vec<_>>().join(", "));
+		} else {
+			text.push_str(&format!(
+				"local {}; ",
+				names.iter().map(|n| format!("{n} = 1")).collect::<Vec<_>>().join(", ")
+			));
+		}
+		layers.insert(0, names);
+	}
+	text.push_str(&target);
+	text.push_str(&closers);
+	(text, layers, target)
+}
+
+fn gen_error(rng: &mut Rng) -> Prog {
+	match rng.below(10) {
+		0 | 1 => {
+			// did-you-mean on fields
+			let fam: &[&str] = if rng.chance(1, 5) { UFAMS[rng.below(UFAMS.len())] } else { FAMS[rng.below(FAMS.len())] };
+			let o = obj_src(&gen_obj_fam(rng, fam, 2, 0, false));
+			let k = near_miss(rng, fam);
+			Prog { class: "suggest-field", text: format!("{o}['{k}']") }
+		}
+		2 | 3 => {
+			let (text, _, _) = gen_locals_prog(rng);
+			Prog { class: "suggest-local", text }
+		}
+		4 => {
+			let t = *rng.pick(&[
+				"std.lenght([1])",
+				"std.objectField({})",
+				"std.manifestJson({})",
+				"std.setUnon([], [])",
+				"std.filterMapp(1, 2, 3)",
+				"std.asciiUper('a')",
+			]);
+			Prog { class: "suggest-std", text: t.to_string() }
+		}
+		5 => {
+			let t = *rng.pick(&[
+				"local f(a, b) = a; f(c=1, d=2)",
+				"local f(a, b) = a; f(1, 2, 3)",
+				"local f(a, b) = a; f(b=1)",
+				"local f(a, b) = a; f(1, a=2)",
+				"std.length()",
+				"std.substr('abc', 1)",
+			]);
+			Prog { class: "arity", text: t.to_string() }
+		}
+		6 => {
+			let t = *rng.pick(&[
+				"{ assert self.a > 1 : 'A too small', a: 1 }.a",
+				"{ assert self.a > 1 : 'first' } + { assert self.a > 2 : 'second', a: 0 }",
+				"local o = { assert false : 'never' }; std.objectFields(o) + [o.x]",
+				"assert 1 == 2 : 'top assert'; 1",
+				"(import 'lib_assert.libsonnet').b",
+			]);
+			Prog { class: "assert", text: t.to_string() }
+		}
+		_ => {
+			let a = rng.range(0, 9);
+			let text = match rng.below(8) {
+				0 => format!("error 'boom {a}'"),
+				1 => format!("{a} / 0"),
+				2 => format!("[1, 2][{}]", a + 2),
+				3 => "'a' + {} - 1".to_string(),
+				4 => format!("std.parseInt('x{a}')"),
+				5 => format!("'%d' % 'n{a}'"),
+				6 => "local a = b, b = a; a".to_string(),
+				_ => "{ a: self.b, b: self.a }.a".to_string(),
+			};
+			Prog { class: "error", text }
+		}
+	}
+}
+
+fn gen_multi(rng: &mut Rng) -> Prog {
+	let text = match rng.below(8) {
+		0 | 1 | 2 => {
+			let o = obj_src(&gen_obj(rng, 2, 5, false));
+			listing_wrap(rng, &o)
+		}
+		3 => {
+			let o = obj_src(&gen_obj(rng, 2, 6, true));
+			format!("local o = {o}; std.map(function(k) o[k], std.reverse(std.objectFields(o)))")
+		}
+		4 => "[error 'first', error 'second', 1 / 0]".to_string(),
+		5 => {
+			let fam = FAMS[rng.below(FAMS.len())];
+			let o1 = obj_src(&gen_obj_fam(rng, fam, 1, 0, false));
+			let o2 = obj_src(&gen_obj_fam(rng, fam, 1, 0, false));
+			format!("{o1}.{} + {o2}.{}", near_miss(rng, fam), near_miss(rng, fam))
+		}
+		6 => "{ assert false : 'A1', a: error 'Ea' } + { assert false : 'A2', b: error 'Eb' }".to_string(),
+		_ => {
+			let o = obj_src(&gen_obj(rng, 2, 4, true));
+			format!("std.manifestJsonEx({o}, '  ') + std.manifestYamlDoc({o})")
+		}
+	};
+	Prog { class: "multi-error", text }
+}
+
+fn gen_stack(rng: &mut Rng) -> Prog {
+	let k = match rng.below(6) {
+		0 => rng.range(1, 60),
+		1 => rng.range(60, 110),
+		2 => rng.range(180, 210),
+		3 => rng.range(90, 104),
+		4 => rng.range(190, 202),
+		_ => rng.range(300, 900),
+	};
+	let text = match rng.below(4) {
+		0 => format!("local f(n) = if n == 0 then 0 else 1 + f(n - 1); f({k})"),
+		1 => format!("local o = {{ f(n): if n == 0 then 0 else 1 + self.f(n - 1) }}; o.f({k})"),
+		2 => format!("std.foldl(function(a, i) [a], std.range(1, {k}), 0)"),
+		_ => format!("local f(n) = if n == 0 then {{ abc1: 1 }}.abc else [f(n - 1)]; f({k})"),
+	};
+	Prog { class: "stack", text }
+}
+
+fn gen_import(rng: &mut Rng) -> Prog {
+	let k = rng.range(100, 199);
+	let t = match rng.below(14) {
+		0 => "(import 'lib_ok.libsonnet').g".to_string(),
+		1 => "import 'lib_err.libsonnet'".to_string(),
+		2 => "(import 'lib_lazy.libsonnet').bad".to_string(),
+		3 => "(import 'lib_lazy.libsonnet').good".to_string(),
+		4 => "import 'lib_lazy.libsonnet'".to_string(),
+		5 => "import 'lib_cyc_a.libsonnet'".to_string(),
+		6 => "import 'lib_syntax.libsonnet'".to_string(),
+		7 => "importstr 'lib_ok.libsonnet'".to_string(),
+		8 => "import 'lib_self.libsonnet'".to_string(),
+		9 => "import 'lib_missing.libsonnet'".to_string(),
+		10 => "(import 'lib_ok.libsonnet').abc".to_string(),
+		11 => "std.objectFieldsAll(import 'lib_ok.libsonnet')".to_string(),
+		12 => "(import 'lib_deep.libsonnet').y".to_string(),
+		_ => format!("local f(n) = if n == 0 then (import 'lib_ok.libsonnet').f else 1 + f(n - 1); f({k})"),
+	};
+	Prog { class: "import", text: t }
+}
+
+/// programs that force a lazily evaluated member of an imported (state-cached) value
+fn gen_import_deep(rng: &mut Rng) -> Prog {
+	let m = *rng.pick(&["x", "z"]);
+	if rng.chance(1, 2) {
+		Prog { class: "import-deep", text: format!("(import 'lib_deep.libsonnet').{m}") }
+	} else {
+		let k = rng.range(120, 199);
+		Prog {
+			class: "import-deep",
+			text: format!("local f(n) = if n == 0 then (import 'lib_deep.libsonnet').{m} else 1 + f(n - 1); f({k})"),
+		}
+	}
+}
+
+fn gen_prog(rng: &mut Rng) -> Prog {
+	match rng.below(20) {
+		0..=5 => gen_value(rng),
+		6..=10 => gen_error(rng),
+		11..=13 => gen_multi(rng),
+		14..=16 => gen_stack(rng),
+		17 | 18 => gen_import(rng),
+		_ => gen_import_deep(rng),
+	}
+}
+
+// ---------------------------------------------------------------------------------------------
+// det.hist
+
+#[derive(Clone, Debug)]
+struct Variant {
+	worker: bool,
+	pool: Vec<String>,
+	hist: Vec<String>,
+	gc: bool,
+	twice: bool,
+}
+
+fn idents_of(text: &str) -> Vec<String> {
+	// every identifier-like / quoted word of the program: pre-interning these (in another order)
+	// changes the addresses the evaluator's hash maps are keyed by
+	let mut out: Vec<String> = Vec::new();
+	let mut cur = String::new();
+	for c in text.chars().chain(std::iter::once(' ')) {
+		if c.is_alphanumeric() || c == '_' {
+			cur.push(c);
+		} else {
+			if !cur.is_empty() && !cur.chars().next().unwrap().is_ascii_digit() && !out.contains(&cur) {
+				out.push(cur.clone());
+			}
+			cur.clear();
+		}
+	}
+	out
+}
+
+fn gen_variant(rng: &mut Rng, p: &Prog, worker: bool) -> Variant {
+	let mut pool = Vec::new();
+	match rng.below(4) {
+		0 => {}
+		1 => {
+			pool = idents_of(&p.text);
+			shuffle(rng, &mut pool);
+		}
+		2 => {
+			pool = idents_of(&p.text);
+			pool.reverse();
+			for i in 0..rng.below(40) {
+				pool.insert(rng.below(pool.len() + 1), format!("filler_{i}_{}", rng.below(1000)));
+			}
+		}
+		_ => {
+			for i in 0..(1usize << rng.below(11)) {
+				pool.push(format!("pad{i}"));
+			}
+			let mut ids = idents_of(&p.text);
+			shuffle(rng, &mut ids);
+			pool.extend(ids);
+		}
+	}
+	let mut hist = Vec::new();
+	for _ in 0..rng.below(5) {
+		let h = match rng.below(8) {
+			0 | 1 => gen_stack(rng),
+			2 => gen_import(rng),
+			3 => gen_import_deep(rng),
+			4 => gen_multi(rng),
+			5 => gen_error(rng),
+			_ => gen_value(rng),
+		};
+		hist.push(h.text);
+	}
+	if rng.chance(1, 4) {
+		hist.push(p.text.clone());
+	}
+	Variant { worker, pool, hist, gc: rng.chance(1, 3), twice: rng.chance(1, 5) }
+}
+
+fn run_variant(s: &State, v: &Variant, p: &str) -> String {
+	let keep: Vec<IStr> = v.pool.iter().map(|x| IStr::from(x.as_str())).collect();
+	for h in &v.hist {
+		let _ = render(s, h);
+	}
+	if v.gc {
+		jrsonnet_gcmodule::collect_thread_cycles();
+	}
+	let mut out = render(s, p);
+	if v.twice {
+		let again = render(s, p);
+		if again != out {
+			out = format!("{out}\n<<second evaluation in the same state differs>>\n{again}");
+		}
+	}
+	drop(keep);
+	out
+}
+
+fn variant_json(v: &Variant) -> Value {
+	json!({"worker": v.worker, "pool_n": v.pool.len(), "pool_head": v.pool.iter().take(12).collect::<Vec<_>>(),
+	       "hist": v.hist, "gc": v.gc, "twice": v.twice})
+}
+
+fn run_hist(opts: &Opts, w: &mut CaseWriter, lib: &Path, meta: &mut BTreeMap<String, usize>) {
+	let mut rng = Rng::new(opts.seed ^ 0x1616);
+	let n = if opts.thorough() { 2400 } else { 420 };
+	// the long-lived worker: ONE state on ONE thread for the whole run
+	let lib2 = lib.to_path_buf();
+	let (tx, rx) = std::sync::mpsc::channel::<Option<(Variant, String)>>();
+	let (rtx, rrx) = std::sync::mpsc::channel::<String>();
+	let worker = thread::Builder::new()
+		.stack_size(BIG_STACK)
+		.spawn(move || {
+			let s = mk_state(&lib2);
+			while let Ok(Some((v, p))) = rx.recv() {
+				let _ = rtx.send(run_variant(&s, &v, &p));
+			}
+		})
+		.expect("spawn worker");
+	// fixed scenarios first: (program, history that must not influence it)
+	let deep = |m: &str, k: usize| format!("local f(n) = if n == 0 then (import 'lib_deep.libsonnet').{m} else 1 + f(n - 1); f({k})");
+	let fixed: Vec<(Prog, Vec<String>)> = vec![
+		(Prog { class: "import-deep", text: "(import 'lib_deep.libsonnet').x".into() }, vec![deep("x", 190)]),
+		(Prog { class: "import-deep", text: "(import 'lib_deep.libsonnet').z".into() }, vec![deep("z", 170)]),
+		(Prog { class: "import-deep", text: deep("x", 20) }, vec![deep("x", 175), deep("x", 150)]),
+		(Prog { class: "stack", text: "local f(n) = if n == 0 then 0 else 1 + f(n - 1); f(120)".into() },
+		 vec!["local f(n) = if n == 0 then 0 else 1 + f(n - 1); f(5000)".into(), "error 'x'".into()]),
+		(Prog { class: "import", text: "import 'lib_err.libsonnet'".into() }, vec!["import 'lib_err.libsonnet'".into()]),
+		(Prog { class: "import", text: "import 'lib_cyc_a.libsonnet'".into() }, vec!["import 'lib_cyc_b.libsonnet'".into()]),
+		(Prog { class: "assert", text: "(import 'lib_assert.libsonnet').b".into() }, vec!["(import 'lib_assert.libsonnet').a".into()]),
+	];
+	let nfixed = fixed.len();
+	for ci in 0..n + nfixed {
+		let (p, forced_hist) = if ci < nfixed { (fixed[ci].0.clone(), Some(fixed[ci].1.clone())) } else { (gen_prog(&mut rng), None) };
+		*meta.entry(format!("hist:{}", p.class)).or_default() += 1;
+		let mut variants = vec![Variant { worker: false, pool: vec![], hist: vec![], gc: false, twice: false }];
+		for _ in 0..3 {
+			variants.push(gen_variant(&mut rng, &p, false));
+		}
+		for _ in 0..2 {
+			variants.push(gen_variant(&mut rng, &p, true));
+		}
+		if let Some(h) = forced_hist {
+			variants[1].hist = h.clone();
+			variants[4].hist = h;
+		}
+		let mut outs = Vec::new();
+		for v in &variants {
+			let out = if v.worker {
+				tx.send(Some((v.clone(), p.text.clone()))).expect("send");
+				rrx.recv().unwrap_or_else(|_| "WORKER-DIED".into())
+			} else {
+				let (v2, p2, l2) = (v.clone(), p.text.clone(), lib.to_path_buf());
+				big(move || {
+					let s = mk_state(&l2);
+					run_variant(&s, &v2, &p2)
+				})
+			};
+			outs.push(out);
+		}
+		for v in &variants {
+			*meta.entry(format!("hist-len:{}", v.hist.len())).or_default() += 1;
+		}
+		let outcome = if outs[0].starts_with("OK") { "ok" } else if outs[0].starts_with("ERR") { "err" } else { "panic" };
+		*meta.entry(format!("hist-outcome:{outcome}")).or_default() += 1;
+		let size = p.text.len() + variants.iter().map(|v| v.hist.iter().map(String::len).sum::<usize>() + v.pool.len()).sum::<usize>();
+		let deep_forced_under_limit = variants
+			.iter()
+			.zip(&outs)
+			.map(|(v, _)| v.hist.iter().any(|h| h.contains("lib_deep.libsonnet")))
+			.collect::<Vec<_>>();
+		w.case(
+			json!({"op":"det.hist","class":p.class,"prog":p.text,"variants":variants.iter().map(variant_json).collect::<Vec<_>>(),
+			       "outs":outs,"hist_touches_lib_deep":deep_forced_under_limit,"size":size}),
+			json!({"_n": outs.len()}),
+		);
+	}
+	let _ = tx.send(None);
+	let _ = worker.join();
+}
+
+// ---------------------------------------------------------------------------------------------
+// det.fields
+
+#[cfg(jrsonnet_verif)]
+fn shape_json(v: &Val) -> Option<Value> {
+	use jrsonnet_evaluator::{VerifCoreShape, Visibility};
+	let Val::Obj(o) = v else { return None };
+	let mut cores = Vec::new();
+	for c in o.verif_core_shape() {
+		cores.push(match c {
+			VerifCoreShape::Oop(fs) => json!({"k":"oop","fs":fs.iter().map(|(n, _add, vis)| json!([n.as_str(), match vis {
+				Visibility::Normal => "n", Visibility::Hidden => "h", Visibility::Unhide => "u" }])).collect::<Vec<_>>()}),
+			VerifCoreShape::Omit(ns, prev) => json!({"k":"omit","ns":ns.iter().map(|n| n.as_str().to_string()).collect::<Vec<_>>(),"prev":prev}),
+			_ => return None,
+		});
+	}
+	Some(Value::Array(cores))
+}
+#[cfg(not(jrsonnet_verif))]
+fn shape_json(_v: &Val) -> Option<Value> {
+	None
+}
+
+fn run_fields(opts: &Opts, w: &mut CaseWriter, lib: &Path, meta: &mut BTreeMap<String, usize>) {
+	let mut rng = Rng::new(opts.seed ^ 0xF1E1D5);
+	let n = if opts.thorough() { 3000 } else { 500 };
+	let lib = lib.to_path_buf();
+	let cases: Vec<(Value, Value, usize)> = big(move || {
+		let s = mk_state(&lib);
+		let mut out = Vec::new();
+		for _ in 0..n {
+			let o = gen_obj(&mut rng, 3, 0, false);
+			let src = obj_src(&o);
+			let mut names = Vec::new();
+			obj_names(&o, &mut names);
+			shuffle(&mut rng, &mut names);
+			let keep: Vec<IStr> = names.iter().map(|x| IStr::from(x.as_str())).collect();
+			let seed = rng.below(1 << 20);
+			let r = guarded(|| s.evaluate_snippet("<o>".to_owned(), src.clone()));
+			let (shape, ans) = match r {
+				Ok(Ok(v)) => {
+					let sh = shape_json(&v);
+					let Val::Obj(ov) = &v else { unreachable!() };
+					let f = |h: bool| -> Vec<String> {
+						ov.fields_ex(
+							h,
+							#[cfg(feature = "exp-preserve-order")]
+							false,
+						)
+						.iter()
+						.map(|x| x.as_str().to_string())
+						.collect()
+					};
+					(sh, json!({"fields": f(false), "fieldsAll": f(true), "len": ov.len()}))
+				}
+				Ok(Err(e)) => (None, json!({"err": e.error().to_string()})),
+				Err(p) => (None, json!({"panic": p})),
+			};
+			drop(keep);
+			let Some(shape) = shape else {
+				out.push((json!({"op":"det.fields","src":src,"cores":null,"seed":seed,"size":src.len()}), ans, 0));
+				continue;
+			};
+			let nc = shape.as_array().map_or(0, Vec::len);
+			out.push((json!({"op":"det.fields","src":src,"cores":shape,"seed":seed,"size":src.len()}), ans, nc));
+		}
+		out
+	});
+	for (op, ans, nc) in cases {
+		*meta.entry(format!("fields-cores:{nc}")).or_default() += 1;
+		w.case(op, ans);
+	}
+}
+
+// ---------------------------------------------------------------------------------------------
+// det.suggest
+
+fn score_bits(a: &str, b: &str) -> u64 {
+	strsim::jaro_winkler(a, b).to_bits()
+}
+
+fn run_suggest(opts: &Opts, w: &mut CaseWriter, lib: &Path, meta: &mut BTreeMap<String, usize>) {
+	let mut rng = Rng::new(opts.seed ^ 0x5A66);
+	let n = if opts.thorough() { 3000 } else { 500 };
+	let lib = lib.to_path_buf();
+	let cases: Vec<(Value, Value, String)> = big(move || {
+		let s = mk_state(&lib);
+		let mut out = Vec::new();
+		for i in 0..n {
+			if i % 2 == 0 {
+				// locals
+				let (text, layers, target) = gen_locals_prog(&mut rng);
+				let mut pre: Vec<String> = layers.iter().flatten().cloned().collect();
+				shuffle(&mut rng, &mut pre);
+				let keep: Vec<IStr> = if rng.chance(2, 3) { pre.iter().map(|x| IStr::from(x.as_str())).collect() } else { vec![] };
+				let r = guarded(|| s.evaluate_snippet("<s>".to_owned(), text.clone()));
+				drop(keep);
+				let ans = match r {
+					Ok(Err(e)) => match e.error() {
+						ErrorKind::VariableIsNotDefined(n, sugg) => {
+							json!({"key": n.as_str(), "suggest": sugg.iter().map(|x| x.as_str().to_string()).collect::<Vec<_>>()})
+						}
+						other => json!({"err": other.to_string()}),
+					},
+					Ok(Ok(_)) => json!({"ok": true}),
+					Err(p) => json!({"panic": p}),
+				};
+				// scopes innermost first; the outermost scope binds `std`
+				let mut ls: Vec<Vec<Value>> = layers
+					.iter()
+					.map(|l| {
+						let mut l = l.clone();
+						shuffle(&mut rng, &mut l);
+						l.iter().map(|x| json!([x, score_bits(x, &target)])).collect()
+					})
+					.collect();
+				ls.push(vec![json!(["std", score_bits("std", &target)])]);
+				let sz = text.len();
+				out.push((json!({"op":"det.suggest","kind":"local","key":target,"layers":ls,"prog":text,"size":sz}), ans, "local".to_string()));
+			} else {
+				let fam: &[&str] = if rng.chance(1, 4) { UFAMS[rng.below(UFAMS.len())] } else { FAMS[rng.below(FAMS.len())] };
+				let o = gen_obj_fam(&mut rng, fam, 2, 0, false);
+				let key = near_miss(&mut rng, fam);
+				let src = obj_src(&o);
+				let text = format!("{src}['{key}']");
+				let mut names = Vec::new();
+				obj_names(&o, &mut names);
+				shuffle(&mut rng, &mut names);
+				let keep: Vec<IStr> = if rng.chance(2, 3) { names.iter().map(|x| IStr::from(x.as_str())).collect() } else { vec![] };
+				let r = guarded(|| s.evaluate_snippet("<s>".to_owned(), text.clone()));
+				let ov = guarded(|| s.evaluate_snippet("<o>".to_owned(), src.clone()));
+				drop(keep);
+				let shape = match &ov {
+					Ok(Ok(v)) => shape_json(v),
+					_ => None,
+				};
+				let ans = match r {
+					Ok(Err(e)) => match e.error() {
+						ErrorKind::NoSuchField(n, sugg) => {
+							json!({"key": n.as_str(), "suggest": sugg.iter().map(|x| x.as_str().to_string()).collect::<Vec<_>>()})
+						}
+						other => json!({"err": other.to_string()}),
+					},
+					Ok(Ok(_)) => json!({"ok": true}),
+					Err(p) => json!({"panic": p}),
+				};
+				let mut all: Vec<String> = Vec::new();
+				obj_names(&o, &mut all);
+				let scores: Vec<Value> = all.iter().map(|x| json!([x, score_bits(x, &key)])).collect();
+				let sz = text.len();
+				out.push((json!({"op":"det.suggest","kind":"field","key":key,"cores":shape,"scores":scores,"prog":text,"size":sz}), ans, "field".to_string()));
+			}
+		}
+		out
+	});
+	for (op, ans, kind) in cases {
+		let ns = ans.get("suggest").and_then(Value::as_array).map_or(0, Vec::len);
+		*meta.entry(format!("suggest-{kind}:{}", ns.min(5))).or_default() += 1;
+		w.case(op, ans);
+	}
+}
+
+// ---------------------------------------------------------------------------------------------
+// det.tla
+
+fn run_tla(opts: &Opts, w: &mut CaseWriter, lib: &Path, meta: &mut BTreeMap<String, usize>) {
+	let mut rng = Rng::new(opts.seed ^ 0x71A);
+	let n = if opts.thorough() { 2000 } else { 400 };
+	let lib = lib.to_path_buf();
+	let cases: Vec<(Value, Value)> = big(move || {
+		let s = mk_state(&lib);
+		let mut out = Vec::new();
+		const PN: &[&str] = &["a", "b", "c", "d", "e", "f"];
+		for _ in 0..n {
+			let np = 1 + rng.below(5);
+			let mut params: Vec<(String, bool)> = Vec::new(); // name, has default
+			let mut pool: Vec<&str> = PN.to_vec();
+			shuffle(&mut rng, &mut pool);
+			for p in pool.iter().take(np) {
+				params.push(((*p).to_string(), rng.chance(1, 3)));
+			}
+			let src = format!(
+				"function({}) [{}]",
+				params.iter().map(|(p, d)| if *d { format!("{p} = 'd_{p}'") } else { p.clone() }).collect::<Vec<_>>().join(", "),
+				params.iter().map(|(p, _)| p.clone()).collect::<Vec<_>>().join(", ")
+			);
+			// arguments: never more than parameters (the over-full case is a separate arithmetic defect)
+			let na = rng.below(np + 1);
+			let mut anames: Vec<String> = Vec::new();
+			let mut cands: Vec<String> = PN.iter().map(|x| (*x).to_string()).chain(["zz".to_string(), "q1".to_string(), "q2".to_string()]).collect();
+			shuffle(&mut rng, &mut cands);
+			for c in cands.into_iter().take(na) {
+				anames.push(c);
+			}
+			let mut args: Vec<(String, &'static str)> = Vec::new();
+			for a in &anames {
+				let kind = match rng.below(6) {
+					0 => "missing-import",
+					1 => "missing-importstr",
+					2 => "code",
+					_ => "str",
+				};
+				args.push((a.clone(), kind));
+			}
+			let mut ins = args.clone();
+			shuffle(&mut rng, &mut ins);
+			// pre-intern in a shuffled order, then build the map in another order
+			let mut pre = anames.clone();
+			shuffle(&mut rng, &mut pre);
+			let keep: Vec<IStr> = pre.iter().map(|x| IStr::from(x.as_str())).collect();
+			let mut map: FxHashMap<IStr, TlaArg> = FxHashMap::default();
+			for (a, k) in &ins {
+				let v = match *k {
+					"missing-import" => TlaArg::Import(format!("no_such_{a}.jsonnet")),
+					"missing-importstr" => TlaArg::ImportStr(format!("no_such_{a}.txt")),
+					"code" => TlaArg::InlineCode(format!("'c_{a}'")),
+					_ => TlaArg::String(format!("s_{a}").into()),
+				};
+				map.insert(a.as_str().into(), v);
+			}
+			let r = guarded(|| -> Result<String, jrsonnet_evaluator::Error> {
+				let _g = s.enter();
+				let f = s.evaluate_snippet("<f>".to_owned(), src.clone())?;
+				let v = apply_tla(&map, f)?;
+				v.manifest(JsonFormat::minify(
+					#[cfg(feature = "exp-preserve-order")]
+					false,
+				))
+			});
+			drop(keep);
+			let ans = match r {
+				Ok(Ok(_)) => json!({"ok": true}),
+				Ok(Err(e)) => match e.error() {
+					ErrorKind::ImportFileNotFound(_, p) => {
+						let ps = p.to_string();
+						let arg = ps.trim_start_matches("no_such_").split('.').next().unwrap_or("").to_string();
+						json!({"err":"import","name":arg})
+					}
+					ErrorKind::UnknownFunctionParameter(n) => json!({"err":"unknown","name":n.as_str()}),
+					ErrorKind::FunctionParameterNotBoundInCall(n, _) => json!({"err":"unbound","name":n.to_string()}),
+					other => json!({"err":"other","_msg":other.to_string()}),
+				},
+				Err(p) => json!({"panic": p}),
+			};
+			let sz = src.len() + args.len() * 8;
+			out.push((
+				json!({"op":"det.tla","params":params.iter().map(|(p, d)| json!([p, d])).collect::<Vec<_>>(),
+				       "args":ins.iter().map(|(a, k)| json!([a, k])).collect::<Vec<_>>(),"size":sz}),
+				ans,
+			));
+		}
+		out
+	});
+	for (op, ans) in cases {
+		let k = ans.get("err").and_then(Value::as_str).unwrap_or(if ans.get("ok").is_some() { "ok" } else { "panic" }).to_string();
+		*meta.entry(format!("tla:{k}")).or_default() += 1;
+		w.case(op, ans);
+	}
+}
+
+// ---------------------------------------------------------------------------------------------
+// det.repeat (fresh processes)
+
+fn cli_once(bin: &Path, lib: &Path, args: &[String]) -> String {
+	match Command::new(bin).arg("-J").arg(lib).args(args).env_remove("JSONNET_PATH").output() {
+		Ok(o) => format!(
+			"exit={:?}\n--stdout--\n{}\n--stderr--\n{}",
+			o.status.code(),
+			String::from_utf8_lossy(&o.stdout),
+			String::from_utf8_lossy(&o.stderr)
+		),
+		Err(e) => format!("SPAWN-FAILED {e}"),
+	}
+}
+
+fn run_cli(opts: &Opts) {
+	let mut w = CaseWriter::new(&opts.out);
+	let lib = opts.out.join("lib");
+	write_libs(&lib);
+	let bin = PathBuf::from(std::env::var("VERIF_BIN_DIR").unwrap_or_default()).join("jrsonnet");
+	let mut rng = Rng::new(opts.seed ^ 0xC11);
+	let n = if opts.thorough() { 480 } else { 72 };
+	const RUNS: usize = 8;
+	let mut meta: BTreeMap<String, usize> = BTreeMap::new();
+	let mut jobs: Vec<(Prog, Vec<String>)> = Vec::new();
+	// fixed witnesses of the repaired defects come first
+	jobs.push((Prog { class: "suggest-local", text: "local abc1=1,abc2=2,abc3=3,abc4=4; abc".into() }, vec![]));
+	jobs.push((
+		Prog { class: "tla", text: "function(x, y) x".into() },
+		vec!["--tla-str".into(), "a=1".into(), "--tla-str".into(), "b=2".into()],
+	));
+	jobs.push((
+		Prog { class: "tla", text: "function(a, b) a".into() },
+		vec!["--tla-code-file".into(), "a=/nonexistent/1".into(), "--tla-code-file".into(), "b=/nonexistent/2".into()],
+	));
+	while jobs.len() < n {
+		if rng.chance(1, 8) {
+			// top-level arguments: unknown names / unresolvable files
+			let mut names = vec!["a", "b", "c", "d", "zz", "q"];
+			shuffle(&mut rng, &mut names);
+			let k = 1 + rng.below(3);
+			let mut args = Vec::new();
+			for a in &names[..k] {
+				match rng.below(3) {
+					0 => {
+						args.push("--tla-code-file".to_string());
+						args.push(format!("{a}=/nonexistent/{a}.jsonnet"));
+					}
+					1 => {
+						args.push("--tla-code".to_string());
+						args.push(format!("{a}=1+1"));
+					}
+					_ => {
+						args.push("--tla-str".to_string());
+						args.push(format!("{a}=s"));
+					}
+				}
+			}
+			let text = *rng.pick(&["function(a, b, c) [a, b, c]", "function(a, b=2, c=3) [a, b, c]", "function(x, y, z) x"]);
+			jobs.push((Prog { class: "tla", text: text.to_string() }, args));
+		} else {
+			jobs.push((gen_prog(&mut rng), vec![]));
+		}
+	}
+	let results: Vec<Vec<String>> = thread::scope(|sc| {
+		let nthreads = 6;
+		let chunks: Vec<Vec<usize>> = (0..nthreads).map(|t| (0..jobs.len()).filter(|i| i % nthreads == t).collect()).collect();
+		let handles: Vec<_> = chunks
+			.into_iter()
+			.map(|idxs| {
+				let (jobs, bin, lib) = (&jobs, &bin, &lib);
+				sc.spawn(move || {
+					idxs.into_iter()
+						.map(|i| {
+							let mut args = jobs[i].1.clone();
+							args.push("-e".into());
+							args.push(jobs[i].0.text.clone());
+							(i, (0..RUNS).map(|_| cli_once(bin, lib, &args)).collect::<Vec<_>>())
+						})
+						.collect::<Vec<_>>()
+				})
+			})
+			.collect();
+		let mut all: Vec<(usize, Vec<String>)> = handles.into_iter().flat_map(|h| h.join().expect("join")).collect();
+		all.sort_by_key(|x| x.0);
+		all.into_iter().map(|x| x.1).collect()
+	});
+	for ((p, args), outs) in jobs.iter().zip(results) {
+		*meta.entry(format!("cli:{}", p.class)).or_default() += 1;
+		let oc = if outs[0].starts_with("exit=Some(0)") { "ok" } else { "fail" };
+		*meta.entry(format!("cli-outcome:{oc}")).or_default() += 1;
+		w.case(
+			json!({"op":"det.repeat","class":p.class,"prog":p.text,"args":args,"outs":outs,"size":p.text.len()}),
+			json!({"_n": RUNS}),
+		);
+	}
+	let n = w.n;
+	w.finish(
+		json!({"engine":"c16cli","cases":n,"runs_per_program":RUNS,"hist":meta,
+		       "rule":"generated programs (field listings, values, errors, did-you-mean, multi-error, stack-limited, imports, top-level-argument errors) + the witnesses of the repaired defects, each run 8x as a fresh jrsonnet process (ASLR on): exit status, stdout and stderr byte-identical"}),
+		&opts.out,
+	);
+}
 
 pub fn run(opts: &Opts) {
-	let w = CaseWriter::new(&opts.out);
-	w.finish(serde_json::json!({"engine":"c16","cases":0,"rule":"stub"}), &opts.out);
+	if opts.engine == "c16cli" {
+		return run_cli(opts);
+	}
+	let mut w = CaseWriter::new(&opts.out);
+	let lib = opts.out.join("lib");
+	write_libs(&lib);
+	let mut meta: BTreeMap<String, usize> = BTreeMap::new();
+	run_fields(opts, &mut w, &lib, &mut meta);
+	run_suggest(opts, &mut w, &lib, &mut meta);
+	run_tla(opts, &mut w, &lib, &mut meta);
+	run_hist(opts, &mut w, &lib, &mut meta);
+	let n = w.n;
+	w.finish(
+		json!({"engine":"c16","cases":n,"hist":meta,
+		       "rule":"det.fields: random object terms (depth<=3, 8 name families incl. non-ASCII, :/::/::: members, +, objectRemoveKey) with names pre-interned in shuffled order, layer vector via verif_core_shape, fields_ex(false/true)/len vs model under iteration permutations; det.suggest: undefined locals in 1-3 nested local/function scopes and missing fields of 1-4 layer objects, suggestion list of the real ErrorKind vs ranking model (real jaro_winkler scores); det.tla: apply_tla over FxHashMap with unknown names / unresolvable imports / unbound parameters; det.hist: every program in a fresh thread+state and after randomised histories (0-5 successful/failing/stack-limited/import programs, gc) with pre-interned pools of 0-1024 strings, on fresh threads and on one long-lived worker state"}),
+		&opts.out,
+	);
 }
